@@ -80,6 +80,14 @@ CHECKS = {
             "call-trace contracts on an abstract Axes/pyplot recorder for the real bottleneck_matching / wasserstein_matching (loop invariant over the ordered log of plot calls, enumeration facts), VCs from the AST; real Agg canvases with artists inspected for plot_diagrams, both matching plots and the 2-D landscape plots",
             "Mixed: proved for all diagrams and all certificate-shaped matchings - exactly one ax.plot per row involving a point, in order, joining the two points or the point and its perpendicular foot ((b+d)/2,(b+d)/2) (NRA with h^2=1/2), the arg-max bottleneck row in the emphasised style, nothing drawn through pyplot's current axes, plot_diagrams invoked once on the same axes. plot_diagrams itself (scatter offsets, limits, infinity line, labels, legend) and the landscape plots are checked on real canvases only (bounded).",
             "D22 matplotlib call -> artist; matching rows integer-valued and in range (C06); arithmetic definedness assumed; generator, models, contracts trusted"),
+    "C05": ("other",
+            "contracts on the real construct_mapping (loop invariant: the running distortion bounds every mapped pair, for any RNG draw), find_ub_of_min_distortion (while-loop over a generator of random permutations, for every sampling order), find_ub, find_lb (loop invariant double_lb <= 2 mGH with the confirmation step as assumed contract) and estimate; ghost constants inf-dis / 2 mGH; exhaustive small-graph stand-in vs exact mGH",
+            "Mixed: proved for all graph sizes, labelings, RNG states and sampling orders - the upper estimate is the distortion bound of total maps in both directions, hence >= mGH; estimates are non-negative multiples of 1/2; the lower estimate never exceeds mGH *given* L13 and the assumed soundness of the curvature confirmation (Theorems A/B + the greedy assignment test), which is checked only by the bounded stand-in (all pairs of graphs on <=4 vertices, relabelings up to 7 vertices, brute-force feasibility).",
+            "L12-L14 paper lemmas; confirm_lb_using_bounded_curvature / check_assignment_feasibility / find_largest_size_bounded_curvature under assumed contracts; D11 RNG ranges; generator, models, contracts trusted"),
+    "C17": ("other",
+            "contracts on the real determine_optimal_int_type, make_distance_matrix_from_adjacency_matrix (connected and disconnected branch, SciPy's shortest_path / connected_components / unique as dependency contracts) and gromov_hausdorff (pair, collection, rejection); a call-graph obligation (find_lb reaches no RNG call); run-time sweep over containers, sparsity, symmetry, relabelings, collections and disconnected graphs",
+            "Mixed: proved - the disconnected branch warns and returns the square, finite restriction of the distance matrix to a largest component on both axes and never raises; the integer type holds the maximum; pair / collection dispatch, N < 2 rejected, symmetric zero-diagonal matrices whose entries are the pairwise estimates; lower bounds are RNG-free. Format coercion (list / dense / CSR, triu / symmetric) is SciPy's: bounded sweep.",
+            "D10 shortest_path, D19 unique / tril_indices, D20 connected_components (as assumed contracts, swept at run time); generator, models, contracts trusted"),
 }
 
 NOT_YET = "check not built yet in this session (planned per DESIGN.md section 5)"
